@@ -77,6 +77,11 @@ def install_fault(sim, fault):
             sim.gate_open('fault')
         elif kind in ('sigkill', 'sigterm'):
             target = t.proc
+            if fault.get('target') == 'victim':
+                vs = [v for v in victims(sim) if v.proc.alive]
+                if not vs:
+                    return
+                target = vs[-1].proc
             if fault.get('target') == 'server':
                 sp = server_procs(sim)
                 if sp:
